@@ -57,6 +57,7 @@ func Run(r *ev.Run) {
 
 	// (a') controlled schedules over the REAL lock of the directory back end: goroutines sharing one handle + a writer on a second handle
 	phase("controlled dir shared handle", func() { w.dirSchedules(r, r.Pick(30, 200)) })
+	phase("controlled dir handle life cycle", func() { w.dirLifecycleSchedules(r, r.Pick(12, 90)) })
 	if th {
 		phase("controlled dir exhaustive", func() { w.dirExhaustive(r, 800) })
 	}
@@ -66,6 +67,9 @@ func Run(r *ev.Run) {
 	hot := []target{{"alpha", "sym"}, {"alpha", "pair"}, {"bravo", "hmac"}}
 	phase("stress mem", func() { v2Stress(r, "mem", memFactory(), g, r.Pick(10, 12), hot) })
 	phase("stress dir", func() { v2Stress(r, "dir", dirFactory(ksrig.ScratchDir("c17-dir")), r.Pick(8, 16), 8, hot) })
+	phase("stress dir handle life cycle", func() {
+		v2Stress(r, "dir", dirFactory(ksrig.ScratchDir("c17-dir-life")), r.Pick(8, 16), r.Pick(10, 14), hot, true)
+	})
 	phase("multi-process", func() { v2MultiProcess(r, 3, 2, r.Pick(12, 30)) })
 	phase("shared handle mem", func() { v2SharedHandle(r, "mem", memFactory(), g, r.Pick(40, 80)) })
 	phase("shared handle dir", func() {
@@ -91,6 +95,7 @@ func Run(r *ev.Run) {
 		"v2_ok_Read", "v2_ok_OpenRW", "v2_failed_AddKey", "v2_failed_SetCurrent", "v2_reader_results_consistent", "v2_final_states_checked",
 		"v2_successful_addkeys_traced_to_final_state", "v2_ring_histories_linearizable", "stress_actions_mem", "stress_actions_dir", "multiprocess_actions",
 		"shared_handle_reads_mem", "shared_handle_reads_dir", "shared_handle_writers_actions_mem", "shared_handle_writers_actions_dir",
+		"dirsched_lifecycle_executions", "v2_handles_opened_and_closed", "v2_handles_reopened", "stress_actions_dir-life",
 		"dirsched_executions", "dirsched_directed_executions", "dirsched_executions_interleaved", "dirsched_lock_calls_seen_waiting", "v1_getter_results_correct", "v1_held_keys_still_intact"} {
 		r.RequireAtLeast(c, 1)
 	}
